@@ -32,7 +32,7 @@ def run_check(pid, tier, seed):
             cur, inlined = sub, []
             for _round in range(3):
                 try:
-                    nf, done = pins.inline_round(cur)
+                    nf, done = pins.inline_round(cur, requests=[v_.fn for v_ in cur.violations])
                 except Exception:
                     traceback.print_exc()
                     break
